@@ -61,9 +61,16 @@ def check_scenario(sc):
                 yield r
         tail = [eager] if sc.get('eager') else []
         tag = '/eager-consumer' if sc.get('eager') else ''
+        flow = core.Flow(core.from_state(st),
+                         core.dataflows.dump_to_path(root, format=fmt, add_filehash_to_path=filehash, **kw), *tail)
+        if sc.get('second_run'):
+            # the same Flow (hence the same dumper object) has already been executed once; its output was removed since
+            import shutil
+            flow.process()
+            shutil.rmtree(root, ignore_errors=True)
+            tag = '/second-execution'
         with rec.active():
-            core.Flow(core.from_state(st),
-                      core.dataflows.dump_to_path(root, format=fmt, add_filehash_to_path=filehash, **kw), *tail).process()
+            flow.process()
         states = rec.crash_states()
         seen = set()
         for label, cs in states:
@@ -145,6 +152,9 @@ def scenarios(tier):
         for counters in ('no-hash', 'no-bytes'):
             for sh in ([1], [3, 0], [1, 3, 1]):
                 out.append({'shape': sh, 'format': fmt, 'filehash': False, 'nested': False, 'counters': counters})
+    for fmt in ('csv', 'json'):
+        for sh in ([1, 1], [3, 0, 1]):
+            out.append({'shape': sh, 'format': fmt, 'filehash': False, 'nested': False, 'second_run': True})
     # the dumper is not the last step and its consumer is eager
     for fmt in ('csv', 'json'):
         for sh in ([1], [1, 1], [3, 0, 1]):
@@ -171,5 +181,5 @@ def run(run):
 
 
 def replay(w):
-    sc = {k: w[k] for k in ('shape', 'format', 'filehash', 'nested', 'counters', 'eager') if k in w}
+    sc = {k: w[k] for k in ('shape', 'format', 'filehash', 'nested', 'counters', 'eager', 'second_run') if k in w}
     return check_scenario(sc)['viol']
